@@ -349,6 +349,45 @@ pub fn run(ctx: &Ctx) -> Report {
             }
         }
     }
+    // histories: long data, a well-formed execute, then malformed executes (state left behind by one
+    // command must not make the validation of the next one disagree with the iterator)
+    {
+        let good = wire::com_execute(
+            1,
+            0,
+            1,
+            &[Param { typ: wire::T_BLOB, unsigned: false, value: None, long: true }, Param { typ: wire::T_LONG, unsigned: false, value: Some(PVal::Int(5)), long: false }],
+            true,
+        );
+        let inline2 = wire::com_execute(
+            1,
+            0,
+            1,
+            &[Param { typ: wire::T_VAR_STRING, unsigned: false, value: Some(PVal::Bytes(b"abc".to_vec())), long: false }, Param { typ: wire::T_LONG, unsigned: false, value: Some(PVal::Int(6)), long: false }],
+            true,
+        );
+        let reuse = {
+            let mut p = vec![wire::COM_STMT_EXECUTE, 1, 0, 0, 0, 0, 1, 0, 0, 0, 0, 0];
+            p.extend_from_slice(&[3, b'x', b'y', b'z', 7, 0, 0, 0]);
+            p
+        };
+        for (hname, first_chunks) in [("long data", vec![b"chunk".to_vec()]), ("empty long data", vec![vec![]]), ("two chunks", vec![b"a".to_vec(), b"b".to_vec()])] {
+            for (sname, second) in [("inline execute", &inline2), ("reuse execute", &reuse), ("same execute", &good)] {
+                for cut in 10..=second.len() {
+                    let mut c = Case::new(vec![Cmd::prepare(b"two params")], std_scripts());
+                    let mut t = Vec::new();
+                    for ch in &first_chunks {
+                        t.extend(wire::raw_packet(&wire::com_long_data(1, 0, ch), 0));
+                    }
+                    t.extend(wire::raw_packet(&good, 0));
+                    t.extend(wire::raw_packet(&second[..cut], 0));
+                    t.extend(wire::raw_packet(&[wire::COM_PING], 0));
+                    c.raw_tail = t;
+                    muts.push(M { what: format!("history: {} + execute, then {} cut short", hname, sname), case: c });
+                }
+            }
+        }
+    }
     // zero-length packets in various places
     for n in 1..4 {
         let mut c = Case::new(vec![Cmd::ping()], vec![]);
@@ -504,7 +543,7 @@ pub fn run(ctx: &Ctx) -> Report {
         let aref = &apps;
         let r = par_cases(ctx, "C20", "inside-tls", apps.len() as u64, |rng, i, rep| {
             let (what, app) = &aref[i as usize];
-            let c = super::c18::TlsCase { tls13: rng.bool(), with_cert: false, server_mode: 0, user: b"tlsuser".to_vec(), cmds: vec![], scripts: vec![], first_cut: 0, cycle: if rng.bool() { vec![] } else { vec![rng.range(1, 50) as usize] }, write_limit: usize::MAX, close_notify: rng.bool(), app_override: Some(app.clone()) };
+            let c = super::c18::TlsCase { tls13: rng.bool(), with_cert: false, server_mode: 0, user: b"tlsuser".to_vec(), cmds: vec![], scripts: vec![], first_cut: 0, cycle: if rng.bool() { vec![] } else { vec![rng.range(1, 50) as usize] }, write_limit: usize::MAX, close_notify: rng.bool(), app_override: Some(app.clone()), seqs: (1, 2) };
             let o = match super::c18::run_tls(m, &c) {
                 Ok(o) => o,
                 Err(e) => {
